@@ -132,11 +132,17 @@ fn create_tx(hist: &mut Hist, coin: &str, keys: &[Vec<u8>], n_out: usize, rng: &
     let outputs = (0..n_out)
         .map(|_| OutDesc {
             // a small palette half of the time: equal values on one address, zero values
-            value: match rng.below(16) {
+            value: match rng.below(40) {
+                // beyond Bitcoin's 21M-coin cap (other coins have none, and the dumps promise exact sums):
+                // rare enough that an address total stays far below 2^64
+                39 => *rng.pick(&[2_100_000_000_000_000u64, 2_100_000_000_000_001, 10_000_000_000_000_000, 1 << 56]),
+                _ => 0,
+            }
+            .max(match rng.below(16) {
                 0 | 1 => 0,
                 2..=8 => *rng.pick(&[1u64, 100, 5_000_000_000, 2_500_000_000]),
                 _ => rng.range(1, 5_000_000_000),
-            },
+            }),
             script: Bytes(out_script(coin, keys, rng, addressless)),
         })
         .collect();
@@ -439,6 +445,9 @@ fn probes(scn: &Scenario, m: &Model, st: &mut Stats) {
                 if o.value == 0 {
                     st.probe("zero_value_output");
                 }
+                if o.value > 2_100_000_000_000_000 {
+                    st.probe("output_above_21m_coins");
+                }
             }
         }
     }
@@ -459,7 +468,7 @@ impl Prop for C07 {
         small + if tier == Tier::Quick { 700 } else { 8000 }
     }
     fn required_probes(&self, _tier: Tier) -> Vec<&'static str> {
-        vec!["spend_in_creating_block", "duplicate_txid", "spend_unknown_outpoint", "tx_with_over_256_outputs", "spent_index_past_255", "zero_value_output", "txids_sharing_8_bytes", "known_output_spent_by_tx_without_outputs", "known_output_spent_after_null_outpoint_in_same_tx"]
+        vec!["spend_in_creating_block", "duplicate_txid", "spend_unknown_outpoint", "tx_with_over_256_outputs", "spent_index_past_255", "zero_value_output", "txids_sharing_8_bytes", "known_output_spent_by_tx_without_outputs", "known_output_spent_after_null_outpoint_in_same_tx", "output_above_21m_coins"]
     }
     fn explore(&self, item: u64, rng: &mut Rng, tier: Tier, h: &mut Harness) -> Result<(), String> {
         let maxk = if tier == Tier::Quick { 3 } else { 4 };
